@@ -53,7 +53,10 @@ def float_args(t, rng):
     if r < 0.6:
         return rng.choice([0.0, 1.5, -2.25, 3, 1e30, -1e30, float('inf')])
     if r < 0.8:
-        return rng.choice([1e40, -1e40, 3.5e38])     # too large for r32, fine for r64 (ints that a double cannot hold exactly are not generated: list.remove compares the stored object)
+        # too large for r32, fine for r64; 2**1024 is beyond both. Integers are given as powers of two: the codec
+        # stores the object it was handed and list.remove compares it exactly, so only ints a double holds exactly
+        # behave like the model's float
+        return rng.choice([1e40, -1e40, 3.5e38, 1 << 128, -(1 << 128), 1 << 1024, 1 << 127])
     return rng.choice(['x', None, b'a', [1]])
 
 
